@@ -126,6 +126,11 @@ def checks(tier):
                                         enc.append(dict(encoder=k, online=online, dt=dt, steps=steps, frequency=freq, n=n, refrac=refrac, compensate=comp))
                             else:
                                 enc.append(dict(encoder=k, online=online, dt=dt, steps=steps, frequency=freq, n=n))
+    # step times that are not powers of two: refrac / dt is not exact in floating point (0.3 / 0.1 = 2.9999999999999996)
+    for online in (False, True):
+        for dt, refrac in ((0.1, 0.3), (0.1, 0.2), (0.2, 0.6)) + (((0.1, 0.5), (0.4, 2.0), (0.3, 0.9)) if th else ()):
+            for comp in (False, True):
+                enc.append(dict(encoder="homogeneous", online=online, dt=dt, steps=6, frequency=500.0, n=1, refrac=refrac, compensate=comp))
     fn = []
     for which in ("exp_interval", "exp_interval_online", "poisson_interval", "poisson_interval_online", "inhomogeneous"):
         for dt in (1.0, 0.5):
@@ -133,6 +138,8 @@ def checks(tier):
                 if which.startswith("exp_interval"):
                     for rmul in (None, 1, 2):
                         fn.append(dict(fn=which, dt=dt, steps=steps, n=n, refrac=(None if rmul is None else rmul * dt), fmax=400.0))
+                    if dt == 1.0:
+                        fn.append(dict(fn=which, dt=0.1, steps=6, n=1, refrac=0.3, fmax=400.0))
                 else:
                     fn.append(dict(fn=which, dt=dt, steps=steps, n=n, fmax=1500.0))
     o = {"div_policy": "xr", "query_timeout_ms": 120000, "max_paths": 20000}
@@ -141,7 +148,7 @@ def checks(tier):
 
 BOUNDS = {
     "quick": {"encoders": "HomogeneousPoissonEncoder (refrac None/dt/2dt/3dt, compensate on/off), HomogeneousPoissonApproxEncoder, PoissonIntervalEncoder; offline and online",
-              "steps": [1, 4], "dt": [1.0, 0.5], "frequency": [10, 500], "elements": "1-2 symbolic intensities in [0,1] (zero pattern forked)", "draws": "every random draw symbolic"},
+              "steps": "1, 4 (6 for the inexact-ratio configurations)", "dt": "1.0, 0.5; and (dt, refrac) in {(0.1, 0.3), (0.1, 0.2), (0.2, 0.6)} where refrac/dt is inexact in floating point", "frequency": [10, 500], "elements": "1-2 symbolic intensities in [0,1] (zero pattern forked)", "draws": "every random draw symbolic"},
     "thorough": {"steps": [1, 3, 5], "frequency": [10, 500, 1000]},
 }
 OUTSIDE = ["NOT ADDRESSED by this family: reproducibility under the same torch.Generator state (C++ RNG state; under the stub the output is a function of the draws)",
